@@ -230,6 +230,8 @@ class Translator:
             if k in ('TypeAliasDecl', 'TypedefDecl') and c.get('name'):
                 ty = c.get('type', {})
                 self.aliases[qname + '::' + c['name']] = strip_ns(ty.get('desugaredQualType') or ty.get('qualType'))
+                for alt in self.cfg.get('alt_names', {}).get(qname, []):
+                    self.aliases[alt + '::' + c['name']] = self.aliases[qname + '::' + c['name']]
             if k == 'CXXRecordDecl' and c.get('completeDefinition') and not c.get('isImplicit') and c.get('name') and c['name'] not in self.cfg.get('skip_records', []):
                 self.register_record(c, qname + '::' + c['name'])
             if k in ('CXXMethodDecl', 'CXXConstructorDecl', 'CXXDestructorDecl'):
@@ -256,7 +258,7 @@ class Translator:
             if bt.cls == 'record':
                 self.emit_struct(self.canon(bq)[0])
                 fields.append(f'  {bt.c} base_{bt.c};')
-            elif bt.cls == 'wp':
+            elif bt.cls in ('wp', 'list'):
                 fields.append(f'  {bt.c} base;')
         for c in decl.get('inner', []):
             if c.get('kind') == 'FieldDecl':
@@ -377,10 +379,10 @@ class Translator:
                 se, de = src.elem, dst.elem
                 if se.cls == de.cls and se.cls in ('sp', 'wp', 'atomic', 'mutex', 'function'): return e
                 if se.cls == 'record' and de.cls == 'record': return f'(&({e})->base_{de.c})'
-                if se.cls == 'record' and de.cls == 'wp': return f'(&({e})->base)'
+                if se.cls == 'record' and de.cls in ('wp', 'list'): return f'(&({e})->base)'
             if src.cls == 'record' and dst.cls == 'record':
                 return f'({e}).base_{dst.c}'
-            if src.cls == 'record' and dst.cls == 'wp':
+            if src.cls == 'record' and dst.cls in ('wp', 'list'):
                 return f'({e}).base'
             raise Unsupported(f'derived-to-base cast {src} -> {dst} in {cx.cname}')
         if ck in ('IntegralCast', 'IntegralToBoolean', 'BooleanToSignedIntegral'):
@@ -696,6 +698,13 @@ class Translator:
             if name == 'end': return f'WLIST_END({optr()})'
             if name == 'front': return f'(*WLIST_FRONT({optr()}))'
             if name == 'emplace_back' and not args: return f'WLIST_EMPLACE_BACK({optr()})'
+            if name == 'sort' and len(args) == 1:
+                lam = self.skip(args[0])
+                while lam.get('kind') == 'CXXConstructExpr' and len(lam.get('inner', [])) == 1: lam = self.skip(lam['inner'][0])
+                if lam.get('kind') != 'LambdaExpr': raise Unsupported(f'list::sort without a lambda comparator in {cx.cname}')
+                clos = self.E(lam, cx); lt = self.ctype(self.qt(lam)); t = cx.tmp('cmp')
+                cx.pre.append(f'{lt.c} {t} = {clos};')
+                return f'WLIST_SORT({optr()}, {lt.c}_call, &{t})'
             if name == 'splice' and len(args) == 2:
                 return f'WLIST_SPLICE_ALL({optr()}, {self.E(args[0], cx)}, {self.addr_of(args[1], cx)})'
             if name == 'splice' and len(args) == 3:
@@ -999,6 +1008,8 @@ class Translator:
         for i, (f, ci) in enumerate(zip(fields, capinits)):
             ft = self.ctype(self.qt(f))
             c0 = self.skip(ci)
+            while c0.get('kind') == 'CXXConstructExpr' and len(c0.get('inner', [])) == 1:
+                c0 = self.skip(c0['inner'][0])      # by-copy capture of a class-type variable
             if c0.get('kind') == 'CXXThisExpr':
                 fname = 'self'; sfields.append(f'  {ft.c} {fname};'); caps.append((fname, False, c0))
             elif c0.get('kind') == 'DeclRefExpr':
